@@ -56,6 +56,10 @@ def cases(tier, seed):
         n = len(a) ** (g[0] * g[1])
         for b in range(0, n, BLOCK):
             yield "islands", dict(shape=list(g), alphabet=a, start=b, stop=min(n, b + BLOCK), clips=CLIPS)
+    for g, a in [((2, 4), "OFS"), ((1, 5), "OFSB")]:
+        n = len(a) ** (g[0] * g[1])
+        for b in range(0, n, 1024):
+            yield "region_subset", dict(shape=list(g), alphabet=a, start=b, stop=min(n, b + 1024))
     for rot, arm, off, level in itertools.product(range(4), (8, 11), (0, 1, 2), (4.2, 4.9)):
         yield "components", dict(rot=rot, arm=arm, off=off, level=level)
 
@@ -161,6 +165,54 @@ def ev_islands(case, ctx):
                                   "monotone|%dx%d:%s,v%d" % (shape[0], shape[1], word, variant))
 
 
+def ev_region_subset(case, ctx):
+    """with a region (and WCS) islands are selected, never clipped: every island returned is one of the unrestricted islands,
+    pixel set and bounding box unchanged"""
+    from AegeanTools.regions import Region
+    from AegeanTools.wcs_helpers import WCSHelper
+    from mc.oracles import wcs_zenithal as wz
+    shape = tuple(case["shape"])
+    alpha = case["alphabet"]
+    ncell = shape[0] * shape[1]
+    vals = np.array([L[ch] for ch in alpha])
+    base = len(alpha)
+    hdr = wz.make_header("SIN", (50.0, -30.0), 1.0, shape, beam=(3.0, 3.0, 0.0))
+    wcs = WCSHelper.from_header(wz.to_fits_header(hdr))
+    regs = []
+    for col in (0.0, shape[1] / 2.0):
+        ra0, dec0 = wz.pix2sky(hdr, col + 1.0, 1.0)
+        r = Region(maxdepth=8)
+        r.add_circles(np.radians(float(ra0)), np.radians(float(dec0)), np.radians(1.2))
+        regs.append(r)
+    import copy
+    for idx in range(case["start"], case["stop"]):
+        digits = []
+        k = idx
+        for _ in range(ncell):
+            digits.append(k % base)
+            k //= base
+        snr = vals[np.array(digits[::-1])].reshape(shape)
+        word = "".join(alpha[d] for d in digits[::-1])
+        im, bkg, rms = realise(snr, 0)
+        with np.errstate(invalid="ignore"):
+            full, _ = observed(sfm.find_islands(im.copy(), bkg.copy(), rms.copy(), seed_clip=5.0, flood_clip=FLOOD), shape)
+        for ri, r in enumerate(regs):
+            ctx.count("find_islands_region_call")
+            sig = "%dx%d:%s,region%d" % (shape[0], shape[1], word, ri)
+            try:
+                with np.errstate(invalid="ignore"):
+                    part, _ = observed(sfm.find_islands(im.copy(), bkg.copy(), rms.copy(), seed_clip=5.0, flood_clip=FLOOD, region=copy.deepcopy(r), wcs=wcs), shape)
+            except Exception as e:
+                ctx.violation("find_islands(region=) raised %r on snr=%s" % (e, word), "region_raise|" + sig)
+                continue
+            if full and len(part) < len(full):
+                ctx.nontrivial_n(1)
+            if not set(part) <= set(full):
+                ctx.violation("snr=%s (%dx%d): with a region the islands %r are returned; they are not among the islands without a region %r" % (
+                    word, shape[0], shape[1], fmt(set(part) - set(full)), fmt(full)), "region_clipped|" + sig)
+        ctx.outcome("region_subset")
+
+
 def ev_components(case, ctx):
     """no reported component originates from a pixel group that fails the rule: a faint (flood-level only) L-shaped
     group whose bounding box contains a bright source, run through the full finder"""
@@ -217,5 +269,7 @@ def ev_components(case, ctx):
 def evaluate(clause, case, ctx):
     if clause == "islands":
         ev_islands(case, ctx)
+    elif clause == "region_subset":
+        ev_region_subset(case, ctx)
     else:
         ev_components(case, ctx)
